@@ -415,3 +415,103 @@ Theorem C03_kernel_crps_never_fails_binary64 :
              VArrF (RefineCrps.table_vals (o_table out)); VArrF (RefineCrps.dec_vals out)]).
 Proof. exact @F64Laws.refine_c_crps_ok_F64. Qed.
 Print Assumptions C03_kernel_crps_never_fails_binary64.
+
+(* ================================================================== *)
+(* C03 ITSELF on the regenerated program: the property theorems above *)
+(* transported to exec_fun RR XRR program "c_crps" (Proofs/KernelCrps.v). *)
+(* ================================================================== *)
+From Coq Require Import String Lia PrimFloat.
+From Hy Require Import Base.Num Base.MiniC Gen.KernelsAst Gen.Consts Gen.ConstsC03 Model.Crps.
+From Hy Require Proofs.KernelCrps.
+Import ListNotations.
+Open Scope string_scope.
+Open Scope list_scope.
+Open Scope Z_scope.
+
+(* run_crps = the execution of the translated c_crps with the arguments of metrics.py (use_weights = 0, is_sorted = 0, zeroed decomposition) *)
+Theorem C03_kernel_run_crps :
+  forall (n : nat) (rows : list (R * list R)) (m : nat) (wv rt0 : list R),
+       KernelCrps.run_crps n rows m wv rt0 =
+       exec_fun RR XRR program (S n) "c_crps"
+         [AVI (Z.of_nat (Datatypes.length rows)); AVI (Z.of_nat m); AVI 0; 
+          AVI 0; AVArrF (map fst rows); AVArrF (List.concat (map snd rows)); 
+          AVArrF wv; AVArrF rt0; AVArrF [0%R; 0%R; 0%R; 0%R; 0%R]].
+Proof. exact @KernelCrps.run_crps_is_exec. Qed.
+Print Assumptions C03_kernel_run_crps.
+
+(* every n >= 1 forecasts of every common size m >= 1: the translated kernel (called as metrics.py calls it, run_crps) returns 0 and writes [crps; reli; resol; unc; pot] with crps = mean(E|X-y| - 0.5 E|X-X'|), crps = reli + pot, resol = unc - pot, reli, pot, unc, crps >= 0, unc = CRPS of the climatology *)
+Theorem C03_kernel_crps_decomposition :
+  forall (m : nat) (rows : list (R * list R)) (wv rt0 : list R) (n : nat),
+       CrpsProofs.wfrows m rows ->
+       Datatypes.length rt0 = (7 * S m)%nat ->
+       (Nat.max (Datatypes.length rows) (S m) < n)%nat ->
+       exists (table : list R) (crps reli resol unc pot : R),
+         KernelCrps.run_crps n rows m wv rt0 =
+         Ok
+           (RI 0,
+            [VArrF (map fst rows); VArrF (List.concat (map snd rows)); 
+             VArrF wv; VArrF table; VArrF [crps; reli; resol; unc; pot]]) /\
+         Datatypes.length table = (7 * S m)%nat /\
+         crps = CrpsDefProofs.crps_def rows /\
+         crps = (reli + pot)%R /\
+         resol = (unc - pot)%R /\
+         (0 <= reli)%R /\
+         (0 <= pot)%R /\
+         (0 <= unc)%R /\
+         (0 <= crps)%R /\ unc = CrpsDefProofs.crps_def (CrpsDefProofs.climatology rows).
+Proof. exact @KernelCrps.kernel_crps_decomposition. Qed.
+Print Assumptions C03_kernel_crps_decomposition.
+
+(* one member per forecast: the first number written is the mean absolute error *)
+Theorem C03_kernel_crps_single_member_is_mae :
+  forall (rows : list (R * list R)) (wv rt0 : list R) (n : nat),
+       CrpsProofs.wfrows 1 rows ->
+       Datatypes.length rt0 = 14%nat ->
+       (Nat.max (Datatypes.length rows) 2 < n)%nat ->
+       exists (table : list R) (reli resol unc pot : R),
+         KernelCrps.run_crps n rows 1 wv rt0 =
+         Ok
+           (RI 0,
+            [VArrF (map fst rows); VArrF (List.concat (map snd rows)); 
+             VArrF wv; VArrF table;
+             VArrF
+               [(CrpsSort.Rsum (map (fun r : R * list R => Rabs (hd 0 (snd r) - fst r)) rows) /
+                 INR (Datatypes.length rows))%R; reli; resol; unc; pot]]).
+Proof. exact @KernelCrps.kernel_crps_single_member_is_mae. Qed.
+Print Assumptions C03_kernel_crps_single_member_is_mae.
+
+(* the reliability table written by the translated kernel: m+1 rows of 7 numbers; in every row the CRPS term = reliability + potential, both non-negative; where g > 0 the rank column is a frequency in [0,1] *)
+Theorem C03_kernel_crps_table :
+  forall (m : nat) (rows : list (R * list R)) (wv rt0 : list R) (n : nat),
+       CrpsProofs.wfrows m rows ->
+       Datatypes.length rt0 = (7 * S m)%nat ->
+       (Nat.max (Datatypes.length rows) (S m) < n)%nat ->
+       exists (tb : list trow) (dec : list R),
+         KernelCrps.run_crps n rows m wv rt0 =
+         Ok
+           (RI 0,
+            [VArrF (map fst rows); VArrF (List.concat (map snd rows)); 
+             VArrF wv; VArrF (flat_map RefineCrps.trow_vals tb); VArrF dec]) /\
+         Datatypes.length tb = S m /\
+         Forall
+           (fun r : trow =>
+            crps_term RR r = (CrpsProofs.g_r r + CrpsProofs.g_c r)%R /\
+            (0 <= CrpsProofs.g_r r)%R /\ (0 <= CrpsProofs.g_c r)%R) tb /\
+         Forall (fun r : trow => (0 < t_g r)%R -> (0 <= t_o r <= 1)%R) tb.
+Proof. exact @KernelCrps.kernel_crps_table. Qed.
+Print Assumptions C03_kernel_crps_table.
+
+(* the hypotheses are satisfiable: three forecasts of three members with ties *)
+Theorem C03_kernel_crps_nonvacuous :
+  exists (table : list R) (crps reli resol unc pot : R),
+         KernelCrps.run_crps 10
+           [(1%R, [2%R; 1%R; 1%R]); (0%R, [1%R; 3%R; 2%R]); (5%R, [4%R; 4%R; 0%R])] 3 [0%R]
+           (repeat 0%R 28) =
+         Ok
+           (RI 0,
+            [VArrF [1%R; 0%R; 5%R]; VArrF [2%R; 1%R; 1%R; 1%R; 3%R; 2%R; 4%R; 4%R; 0%R];
+             VArrF [0%R]; VArrF table; VArrF [crps; reli; resol; unc; pot]]) /\
+         crps = (reli + pot)%R /\
+         resol = (unc - pot)%R /\ (0 <= reli)%R /\ (0 <= pot)%R /\ (0 <= unc)%R.
+Proof. exact @KernelCrps.kernel_crps_example. Qed.
+Print Assumptions C03_kernel_crps_nonvacuous.
